@@ -474,8 +474,15 @@ impl<T: Flat + Walk + DynTarget + Editable + ?Sized> TypeOps for Ops<T> {
             T::validate(bytes)?;
             return Ok(f(bytes, op).expect("harness: clone op"));
         }
+        let copy: *const [u8] = bytes;
         let v = T::from_mut_bytes(bytes)?;
-        Ok(v.edit(op))
+        let r = v.edit(op);
+        // C05 on the live value: the first `size()` bytes alone map again, with the same `size()`
+        let z = v.size();
+        let all = unsafe { &*copy };
+        let ok = z <= all.len() && matches!(T::from_bytes(&all[..z]), Ok(w) if w.size() == z);
+        if !ok { SIZE_PREFIX_DIFF.with(|c| c.set(true)); }
+        Ok(r)
     }
     fn default_in_place(&self, bytes: &mut [u8]) -> Option<Result<(), Error>> {
         let f = self.default?;
@@ -486,6 +493,7 @@ pub fn wrap_default_fn<T: FlatDefault + ?Sized>(bytes: &mut [u8]) -> Result<usiz
     let w = flatty::FlatWrap::<T, &mut [u8]>::default_in_place(bytes)?;
     Ok(w.size())
 }
+thread_local! { pub static SIZE_PREFIX_DIFF: std::cell::Cell<bool> = std::cell::Cell::new(false); }
 pub unsafe fn default_fn<T: FlatDefault + ?Sized>(bytes: &mut [u8]) -> Result<(), Error> {
     T::default_in_place(bytes).map(|_| ())
 }
